@@ -66,16 +66,61 @@ theorem C14_roundtrip_time_chain (t : Dur) (h : t.normalized) (hs : inI32 t.sec)
 theorem C14_new_normalized (s : Int) (n : Nat) : (Dur.new s n).normalized := by
   unfold Dur.new Dur.normalized NS; simp only []; omega
 
-theorem C14_add_normalized (a b : Dur) : (a.add b).normalized := by
-  unfold Dur.add Dur.normalized NS TWO32 at *; simp only []; omega
+/-- the clamped total is inside the representable range -/
+theorem clampTot_range (t : Int) : TOT_MIN ≤ clampTot t ∧ clampTot t ≤ TOT_MAX := by
+  unfold clampTot TOT_MIN TOT_MAX I32MIN I32MAX NS
+  repeat' split
+  all_goals omega
 
-theorem C14_sub_normalized (a b : Dur) (ha : a.normalized) (hb : b.normalized) :
-    (a.sub b).normalized := by
-  unfold Dur.sub Dur.normalized asU32 NS TWO32 at *
-  split <;> simp only [] <;> omega
+theorem clampTot_mono (t u : Int) (h : t ≤ u) : clampTot t ≤ clampTot u := by
+  unfold clampTot TOT_MIN TOT_MAX I32MIN I32MAX NS
+  repeat' split
+  all_goals omega
 
-theorem C14_timeSub_normalized (a b : Dur) : (timeSub a b).normalized :=
-  C14_sub_normalized _ _ (C14_new_normalized _ _) (C14_new_normalized _ _)
+theorem clampTot_id (t : Int) (h : TOT_MIN ≤ t ∧ t ≤ TOT_MAX) : clampTot t = t := by
+  unfold clampTot; split
+  · omega
+  · split <;> omega
+
+/-- `from_total_nanosec` always yields a normalised value with i32 seconds (the casts `as i32` / `as u32` are exact) -/
+theorem fromTotal_normalized (t : Int) : (fromTotal t).normalized ∧ inI32 (fromTotal t).sec := by
+  have h := clampTot_range t
+  unfold fromTotal Dur.normalized inI32 TOT_MIN TOT_MAX I32MIN I32MAX NS at *
+  simp only []
+  omega
+
+/-- decoding is monotone: a larger total gives a larger (sec, ns) pair -/
+theorem fromTotal_mono (t u : Int) (h : t ≤ u) : (fromTotal t).le (fromTotal u) := by
+  have h1 := clampTot_mono t u h
+  have h2 := clampTot_range t
+  unfold fromTotal Dur.le TOT_MIN TOT_MAX I32MIN I32MAX NS at *
+  simp only []
+  omega
+
+/-- the (sec, ns) pair of a decoded total, put back together, is the clamped total -/
+theorem totalNs_fromTotal (t : Int) : totalNs (fromTotal t) = clampTot t := by
+  have h2 := clampTot_range t
+  unfold totalNs fromTotal TOT_MIN TOT_MAX I32MIN I32MAX NS at *
+  simp only []
+  omega
+
+/-- on normalised values the lexicographic order is the order of the totals -/
+theorem le_iff_total (a b : Dur) (ha : a.normalized) (hb : b.normalized) :
+    a.le b ↔ totalNs a ≤ totalNs b := by
+  unfold Dur.le totalNs Dur.normalized NS at *
+  constructor <;> intro h <;> omega
+
+/-- every sum is normalised, whatever the operands (also unnormalised ones such as DURATION_INFINITE) -/
+theorem C14_add_normalized (a b : Dur) : (a.add b).normalized := (fromTotal_normalized _).1
+
+/-- every difference is normalised, whatever the operands -/
+theorem C14_sub_normalized (a b : Dur) : (a.sub b).normalized := (fromTotal_normalized _).1
+
+theorem C14_timeSub_normalized (a b : Dur) : (timeSub a b).normalized := C14_sub_normalized _ _
+
+/-- the result is the exact sum / difference of the totals, saturated as a whole at the ends of the i32-second range -/
+theorem C14_add_exact (a b : Dur) : totalNs (a.add b) = clampTot (totalNs a + totalNs b) := totalNs_fromTotal _
+theorem C14_sub_exact (a b : Dur) : totalNs (a.sub b) = clampTot (totalNs a - totalNs b) := totalNs_fromTotal _
 
 /-- result seconds do not hit the i32 rails (no saturation happened) -/
 def addNoSat (a d : Dur) : Prop := inI32 (a.sec + d.sec) ∧ inI32 (a.sec + d.sec + 1)
@@ -85,75 +130,69 @@ instance (a d : Dur) : Decidable (subNoSat a d) := by unfold subNoSat inI32; exa
 instance (x : Int) : Decidable (inI32 x) := by unfold inI32; exact inferInstance
 instance (d : Dur) : Decidable d.normalized := by unfold Dur.normalized; exact inferInstance
 
-theorem asI32_small (q : Nat) (h : q ≤ 1) : asI32 q = q := by
-  unfold asI32 TWO32; simp only []; omega
-
-theorem sat32_id (x : Int) (h : inI32 x) : sat32 x = x := by
-  unfold sat32 inI32 I32MIN I32MAX at *; repeat' split
-  all_goals omega
-
-/-- closed form of `add` away from saturation -/
-theorem add_nosat (a d : Dur) (ha : a.normalized) (hd : d.normalized) (h : addNoSat a d) :
+/-- closed form of `add` away from saturation: the schoolbook carry -/
+theorem C14_add_nosat (a d : Dur) (ha : a.normalized) (hd : d.normalized) (h : addNoSat a d) :
     a.add d = { sec := a.sec + d.sec + ((a.ns + d.ns) / NS : Nat), ns := (a.ns + d.ns) % NS } := by
-  unfold Dur.normalized NS at *
-  have q : (a.ns + d.ns) / 1000000000 ≤ 1 := by omega
-  unfold Dur.add
-  simp only []
-  rw [sat32_id _ h.1, asI32_small _ (by unfold NS; exact q)]
-  have hq : inI32 (a.sec + d.sec + (((a.ns + d.ns) / NS : Nat) : Int)) := by
-    unfold addNoSat inI32 I32MIN I32MAX NS at *; omega
-  rw [sat32_id _ hq]
-  unfold NS TWO32
-  congr 1
-  omega
+  have hr : TOT_MIN ≤ totalNs a + totalNs d ∧ totalNs a + totalNs d ≤ TOT_MAX := by
+    unfold addNoSat inI32 totalNs TOT_MIN TOT_MAX I32MIN I32MAX Dur.normalized NS at *; omega
+  unfold Dur.add fromTotal
+  simp only [clampTot_id _ hr]
+  unfold totalNs Dur.normalized NS at *
+  congr 1 <;> omega
 
-theorem sub_nosat (a d : Dur) (ha : a.normalized) (hd : d.normalized) (h : subNoSat a d) :
+/-- closed form of `sub` away from saturation: the schoolbook borrow -/
+theorem C14_sub_nosat (a d : Dur) (ha : a.normalized) (hd : d.normalized) (h : subNoSat a d) :
     a.sub d = if a.ns < d.ns then { sec := a.sec - d.sec - 1, ns := NS + a.ns - d.ns }
               else { sec := a.sec - d.sec, ns := a.ns - d.ns } := by
-  unfold Dur.sub
-  simp only []
-  rw [sat32_id _ h.1, sat32_id _ h.2]
-  split
-  · congr 1
-    unfold Dur.normalized asU32 NS TWO32 at *
-    omega
-  · rfl
+  have hr : TOT_MIN ≤ totalNs a - totalNs d ∧ totalNs a - totalNs d ≤ TOT_MAX := by
+    unfold subNoSat inI32 totalNs TOT_MIN TOT_MAX I32MIN I32MAX Dur.normalized NS at *; omega
+  unfold Dur.sub fromTotal
+  simp only [clampTot_id _ hr]
+  unfold totalNs Dur.normalized NS at *
+  split <;> (congr 1 <;> omega)
 
-/-- monotone in the left operand, away from saturation -/
-theorem C14_add_monotone_partial (a b d : Dur) (ha : a.normalized) (hb : b.normalized)
-    (hd : d.normalized) (hab : a.le b) (h1 : addNoSat a d) (h2 : addNoSat b d) :
+/-- FULL monotonicity in the left operand: for ALL normalised operands, saturation included -/
+theorem C14_add_monotone (a b d : Dur) (ha : a.normalized) (hb : b.normalized) (hab : a.le b) :
     (a.add d).le (b.add d) := by
-  rw [add_nosat a d ha hd h1, add_nosat b d hb hd h2]
-  unfold Dur.le Dur.normalized NS at *
-  simp only []
-  omega
+  have := (le_iff_total a b ha hb).1 hab
+  exact fromTotal_mono _ _ (by omega)
 
-/-- monotone in the right operand (`d ≤ d' → t+d ≤ t+d'`), away from saturation -/
-theorem C14_add_monotone_right_partial (t d e : Dur) (ht : t.normalized) (hd : d.normalized)
-    (he : e.normalized) (hde : d.le e) (h1 : addNoSat t d) (h2 : addNoSat t e) :
+/-- monotone in the right operand (`d ≤ e → t+d ≤ t+e`), all normalised operands -/
+theorem C14_add_monotone_right (t d e : Dur) (hd : d.normalized) (he : e.normalized) (hde : d.le e) :
     (t.add d).le (t.add e) := by
-  rw [add_nosat t d ht hd h1, add_nosat t e ht he h2]
-  unfold Dur.le Dur.normalized NS at *
-  simp only []
-  omega
+  have := (le_iff_total d e hd he).1 hde
+  exact fromTotal_mono _ _ (by omega)
 
-theorem C14_sub_monotone_partial (a b d : Dur) (ha : a.normalized) (hb : b.normalized)
-    (hd : d.normalized) (hab : a.le b) (h1 : subNoSat a d) (h2 : subNoSat b d) :
+/-- subtraction is monotone in the minuend ... -/
+theorem C14_sub_monotone (a b d : Dur) (ha : a.normalized) (hb : b.normalized) (hab : a.le b) :
     (a.sub d).le (b.sub d) := by
-  rw [sub_nosat a d ha hd h1, sub_nosat b d hb hd h2]
-  unfold Dur.le Dur.normalized NS at *
-  split <;> split <;> simp only [] <;> omega
+  have := (le_iff_total a b ha hb).1 hab
+  exact fromTotal_mono _ _ (by omega)
 
-/-- at the i32 rail seconds saturate but nanoseconds wrap: addition is not monotone there
-    (finding D50; replayed on the implementation by the harness) -/
+/-- ... and antitone in the subtrahend -/
+theorem C14_sub_antitone_right (t d e : Dur) (hd : d.normalized) (he : e.normalized) (hde : d.le e) :
+    (t.sub e).le (t.sub d) := by
+  have := (le_iff_total d e hd he).1 hde
+  exact fromTotal_mono _ _ (by omega)
+
+/-- `Time - Time` (both operands re-normalised by `new`) is monotone in the left operand -/
+theorem C14_timeSub_monotone (a b d : Dur) (hab : (Dur.new a.sec a.ns).le (Dur.new b.sec b.ns)) :
+    (timeSub a d).le (timeSub b d) :=
+  C14_sub_monotone _ _ _ (C14_new_normalized _ _) (C14_new_normalized _ _) hab
+
+/-- before fixes/D50.patch: at the i32 rail seconds saturated but nanoseconds wrapped, so addition was not monotone there
+    (defect D50, repaired; regression witness on the old operator) -/
 theorem C14_add_monotone_saturation_counterexample :
     let a : Dur := { sec := 2147483646, ns := 900000000 }
     let b : Dur := { sec := 2147483647, ns := 500000000 }
     let d : Dur := { sec := 0, ns := 600000000 }
-    a.le b ∧ ¬ (a.add d).le (b.add d) := by decide
+    a.le b ∧ ¬ (a.addOld d).le (b.addOld d) ∧ (a.add d).le (b.add d) := by decide
 
-/-- non-vacuity: the hypotheses of the partial theorems are satisfiable -/
+/-- non-vacuity: the hypotheses of the theorems are satisfiable, at the rail too -/
 example : let a : Dur := { sec := 5, ns := 999999999 }; let d : Dur := { sec := -7, ns := 1 }
     a.normalized ∧ d.normalized ∧ addNoSat a d ∧ subNoSat a d ∧ inI32 a.sec := by decide
+example : let a : Dur := { sec := 2147483647, ns := 999999999 }; let d : Dur := { sec := 1, ns := 1 }
+    a.normalized ∧ d.normalized ∧ a.add d = a ∧ (a.sub { sec := -1, ns := 0 }) = a := by decide
+example : fromTotal (-1) = { sec := -1, ns := 999999999 } := by decide
 
 end DustVerif.Time
